@@ -82,7 +82,6 @@ def closeWrites (tbl : Table) (e : Entry) : VarSet :=
 /-- Decidable per-entry soundness obligation (C09). -/
 def entryOk (tbl : Table) (e : Entry) : Bool :=
   !e.unknownReads && !e.declUnknown
-  && (match lookup tbl e.cls e.meth with | some e' => e'.rank == e.rank && e'.cached == e.cached && e'.trueDeps == e.trueDeps && e'.calls == e.calls && e'.reads == e.reads && e'.declared == e.declared && e'.withAux == e.withAux && e'.aux == e.aux | none => false)
   && e.calls.all (fun c => match lookup tbl e.cls c with | some ec => decide (ec.rank < e.rank) | none => false)
   && e.trueDeps == closeDeps tbl e
   && e.writesT == closeWrites tbl e
@@ -443,19 +442,44 @@ def showOut (tbl : Table) (cfg : Cfg) (hAfter : Heap) : Op → Out → String
     s!"v:{if stale then 1 else 0}:{",".intercalate (tr.map showKey)}"
   | _, .val _ _ => "bad"
 
-def runShow (tbl : Table) (cfg : Cfg) : Heap → List Op → List String
+inductive WOp
+  | op (o : Op)
+  | dump (sid : Nat)     -- pseudo-op: print `_dependencies` and `_cache` of a state
+
+def parseWOp? (s : String) : Option WOp :=
+  match s.splitOn " " with
+  | ["d", sid] => do pure (.dump (← sid.toNat?))
+  | _ => (parseOp? s).map .op
+
+def methUniverse (tbl : Table) : List Nat :=
+  (tbl.foldl (fun acc e => (e.meth :: e.aux) ++ acc) []).eraseDups
+
+def showDump (tbl : Table) (nSys : Nat) (h : Heap) (sid : Nat) : String :=
+  if sid < h.nSt then
+    let s := h.st sid
+    let keys := (List.range nSys).flatMap (fun i => (methUniverse tbl).map (Key.mk i))
+    let deps (x : Var) := ",".intercalate ((keys.filter (h.cells s.cell x)).map showKey)
+    let cache := ",".intercalate (keys.filterMap (fun k => match s.cache k with
+      | none => none
+      | some none => some (showKey k ++ ":N")
+      | some (some _) => some (showKey k ++ ":V")))
+    s!"D:{deps .pos}|{deps .mom}|{deps .dir}#{cache}#{if s.readOnly then 1 else 0}"
+  else "bad"
+
+def runShow (tbl : Table) (cfg : Cfg) (nSys : Nat) : Heap → List WOp → List String
   | _, [] => []
-  | h, op :: ops =>
+  | h, .dump sid :: ops => showDump tbl nSys h sid :: runShow tbl cfg nSys h ops
+  | h, .op op :: ops =>
     let r := step tbl cfg h op
-    showOut tbl cfg r.1 op r.2 :: runShow tbl cfg r.1 ops
+    showOut tbl cfg r.1 op r.2 :: runShow tbl cfg nSys r.1 ops
 
 def stepLine (tbl : Table) (line : String) : String :=
   match line.splitOn " | " with
   | [hd, opsS] =>
     match hd.splitOn " " with
     | ["hist", sysS] =>
-      match (sysS.splitOn "&").mapM parseSys?, (opsS.splitOn ";").mapM parseOp? with
-      | some ss, some ops => ";".intercalate (runShow tbl (mkCfg ss) Heap.init ops)
+      match (sysS.splitOn "&").mapM parseSys?, (opsS.splitOn ";").mapM parseWOp? with
+      | some ss, some ops => ";".intercalate (runShow tbl (mkCfg ss) ss.length Heap.init ops)
       | _, _ => "bad-op"
     | _ => "bad-op"
   | _ => "bad-op"
